@@ -1,4 +1,4 @@
-use super::swift_utils::parse_amount;
+use super::swift_utils::{format_swift_amount_min_decimals, parse_amount};
 use crate::errors::ParseError;
 use crate::traits::SwiftField;
 use serde::{Deserialize, Serialize};
@@ -81,7 +81,7 @@ impl SwiftField for Field37H {
 
     fn to_swift_string(&self) -> String {
         let negative_indicator = if self.is_negative.is_some() { "N" } else { "" };
-        let rate_str = format!("{:.4}", self.rate.abs()).replace('.', ",");
+        let rate_str = format_swift_amount_min_decimals(self.rate.abs(), 4);
         format!(
             ":37H:{}{}{}",
             self.rate_indicator, negative_indicator, rate_str
